@@ -1,5 +1,10 @@
 (* Case evaluator for the C07 shards. *)
 From GL Require Import VM.Opcode VM.Proto VM.WfProto VM.Skeleton.
+From Coq Require Uint63.
+
+(* Code words are written in the shards as primitive-integer literals (parsed natively, much
+   faster than Z numerals) and converted here; each word is < 2^32 < 2^63, so nothing wraps. *)
+Definition z63 (l : list Uint63.int) : list Z := map Uint63.to_Z l.
 
 Inductive case :=
 (* a compiled chunk: the dumped prototype tree; the verdict of the Go port of wf_proto; a digest of
